@@ -25,10 +25,12 @@ def build_query(ob):
     if not ob.expect_sat:
         neg = z3.Not(ob.goal)
         terms.append(neg)
-    facts = bm.instantiate_axioms(terms)
+    from .contracts_rt import unfold_rec_apps
+    unf = unfold_rec_apps(terms)
+    facts = bm.instantiate_axioms(terms + unf)
     for t in terms:
         s.add(t)
-    for f in facts:
+    for f in unf + facts:
         s.add(f)
     return s.to_smt2()
 
